@@ -57,6 +57,10 @@ ASSUMPTIONS = list(K.ASSUMPTIONS[1:]) + [
     'class invariant on the send channel number (part of send_inv here): _send_chan is None or a uint32, and the '
     'connection is still attached while it is set; writers: process_open / process_open_confirmation (value read '
     'with get_uint32 by connection.py), _close_send and _cleanup (None) - proved here on _close_send only',
+    'SSHClientProcess.communicate: _maybe_resume_reading is used through the constructive form of its C19 contract '
+    '(Spec maybe_resume: resumes iff paused and _should_pause_reading() is false); write / write_eof / wait_closed / '
+    'collect_output of the process layer are abstract calls (only their order and the reading state at the wait are '
+    'stated); no native cross-check for this coroutine',
     'ordering of DATA packets on the wire and segmentation of the transport byte stream are C02/C11 (framing, '
     'send_packet order); multi-channel isolation rests on the routing clause plus the per-channel contracts, which '
     'mention no state outside the channel object',
